@@ -228,6 +228,14 @@ class Pairing:
         self.M = M
         self.P = M.P
         self.funcs = {f.key: f for f in M.ir_funcs()}
+        # a private module-level function of spydrnet/ir (possibly in a sibling module) is code of the methods that call it: those methods
+        # are analysed with it spliced in
+        modfuns = {f.name for f in self.funcs.values() if f.cls is None and f.name.startswith("_") and not f.name.startswith("__")}
+        if modfuns:
+            from .inline import inlined_view
+            for k, f in list(self.funcs.items()):
+                if f.cls is not None and any(isinstance(c, ast.Call) and isinstance(c.func, ast.Name) and c.func.id in modfuns for c in walk_local(f.node)):
+                    self.funcs[k] = inlined_view(self.P, f)
         self.summary = {}  # func key -> {"rel": set of rel-tuples at exit, "events": [(rel, side, op, elem_param, cont_param)]}
         self.results = {}  # func key -> dict(worlds at exit, rel events with facts)
         self._cache = {}
